@@ -235,6 +235,8 @@ def protocol_part(ctx):
     def cats(c):
         return c.startswith(("refusal.", "db.", "files.", "command.failed", "agreement.", "whitelist."))
 
+    # the reindex that follows an editor session must refuse an unparsable page as well (harness/bus.py)
+    ic.edit_loop(ctx, "C08 protocol", {"refusal"}, n_quick=16, n_thorough=200)
     ic.tour(ctx, [("Sim_IndexBreak.cfg", 30 if ctx.quick else 600, 10)], {"idempotence": False, "rebuild": False}, cats,
             "C08 protocol")
     # page names in substring relation: the whitelist must be matched by whole paths
